@@ -422,6 +422,9 @@ pub fn note_call(v: Value) {
 pub trait Sut: Clone {
     /// short structure tag used in records ("qf", "ck", ...)
     const TAG: &'static str;
+    /// compare mstate() with the emitted spec state after every transition (false: the generator
+    /// predicts no mechanism state; M-level validation is done by TLC on the recorded M-records)
+    const COMPARE_MSTATE: bool = true;
     /// fresh object for an initial state of the model / a scenario header
     fn new(cfg: &Value) -> Self;
     /// header record written in front of the P-records (class tables, configuration ...)
@@ -497,9 +500,11 @@ pub struct ReplayOpts {
     pub pair_op: Option<String>,
     pub seed: u64,
     pub max_transitions: u64,
+    pub cfg_extra: Option<Value>,
+    pub mall: bool,
 }
 
-pub fn graph_replay<S: Sut>(gen_path: &str, out: &mut Out, hist: &mut Out, mout: Option<&mut Out>, opts: &ReplayOpts) -> ReplayStats {
+pub fn graph_replay<S: Sut>(gen_path: &str, out: &mut Out, hist: &mut Out, mut mout: Option<&mut Out>, opts: &ReplayOpts) -> ReplayStats {
     let mut st = ReplayStats {
         transitions: 0, executed: 0, drift: 0, states: 0, alt_states: 0, alt_executed: 0, pairs: 0, missing: 0, panics: 0,
         tags: HashMap::new(), tagged_distinct: 0, first_drift: vec![],
@@ -512,6 +517,7 @@ pub fn graph_replay<S: Sut>(gen_path: &str, out: &mut Out, hist: &mut Out, mout:
     let mut tid = 0u64;
     let mut cfg0 = Value::Null;
     let mut last_uid = usize::MAX;
+    let mut mall_hdr_written = false;
 
     let mut work: VecDeque<Value> = VecDeque::new();
     let mut lines = read_json_lines(gen_path);
@@ -527,6 +533,17 @@ pub fn graph_replay<S: Sut>(gen_path: &str, out: &mut Out, hist: &mut Out, mout:
             Some("init") => {
                 let key = t["st"].to_string();
                 if !nodes.contains_key(&key) {
+                    let mut cfg = t["cfg"].clone();
+                    if let (Some(Value::Object(ex)), Value::Object(c)) = (&opts.cfg_extra, &mut cfg) {
+                        for (k, v) in ex {
+                            c.insert(k.clone(), v.clone());
+                        }
+                    }
+                    let t = {
+                        let mut t2 = t.clone();
+                        t2["cfg"] = cfg;
+                        t2
+                    };
                     let sut = S::new(&t["cfg"]);
                     if !header_written {
                         let mut h = sut.header();
@@ -536,10 +553,17 @@ pub fn graph_replay<S: Sut>(gen_path: &str, out: &mut Out, hist: &mut Out, mout:
                         last_uid = sut.uid();
                         header_written = true;
                         cfg0 = t["cfg"].clone();
+                        if let Value::Object(c) = &mut cfg0 {
+                            if let Value::Object(h) = sut.header() {
+                                for (k, v) in h {
+                                    c.entry(k).or_insert(v);
+                                }
+                            }
+                        }
                     }
                     hist.put(&json!({"hid": next_hid, "init": t["cfg"]}));
                     let ms = sut.mstate();
-                    if ms != t["st"] {
+                    if S::COMPARE_MSTATE && ms != t["st"] {
                         st.drift += 1;
                         if st.first_drift.len() < 5 {
                             st.first_drift.push(json!({"what":"init","spec":t["st"],"code":ms}));
@@ -586,8 +610,27 @@ pub fn graph_replay<S: Sut>(gen_path: &str, out: &mut Out, hist: &mut Out, mout:
                     tid += 1;
                     CALL_TID.store(tid, Ordering::SeqCst);
                     note_call(json!({"hid": hid, "op": op}));
+                    let mpre = if opts.mall && mout.is_some() { sut.mstate() } else { Value::Null };
                     let rec = sut.apply(&op, None);
                     st.executed += 1;
+                    if let (true, Some(m)) = (opts.mall, mout.as_deref_mut()) {
+                        if !mall_hdr_written {
+                            m.put(&json!({"k":"hdr","s":S::TAG,"cfg":cfg0}));
+                            mall_hdr_written = true;
+                        }
+                        let post = if rec["res"] == "panic" { json!("none") } else { sut.mstate() };
+                        m.put(&json!({"k":"m","tid":tid,"op":op,"pre":mpre,"post":post,"res":rec["res"]}));
+                    }
+                    if let Some(tg) = rec["tags"].as_array() {
+                        if !tg.is_empty() {
+                            st.tagged_distinct += 1;
+                            for x in tg {
+                                if let Some(sx) = x.as_str() {
+                                    *st.tags.entry(sx.to_string()).or_insert(0) += 1;
+                                }
+                            }
+                        }
+                    }
                     let mut full = Map::new();
                     full.insert("k".into(), json!("p"));
                     full.insert("s".into(), json!(S::TAG));
@@ -601,7 +644,7 @@ pub fn graph_replay<S: Sut>(gen_path: &str, out: &mut Out, hist: &mut Out, mout:
                     let altw = S::is_alt_worthy(&rec);
                     let altkind = rec["res"].as_str().unwrap_or("").to_string();
                     // M-level comparison (diagnostic)
-                    let ms = if panicked { Value::Null } else { sut.mstate() };
+                    let ms = if panicked { Value::Null } else if S::COMPARE_MSTATE { sut.mstate() } else { t["post"].clone() };
                     let res_ok = t["res"].is_null() || rec["res"] == t["res"] || rec["mres"] == t["res"];
                     let spec_panics = t["res"] == "panic";
                     if (panicked != spec_panics) || (!panicked && (ms != t["post"] || !res_ok)) {
@@ -667,7 +710,7 @@ pub fn graph_replay<S: Sut>(gen_path: &str, out: &mut Out, hist: &mut Out, mout:
                     full.insert("hid".into(), json!(n.hid));
                     full.insert("alt".into(), json!(n.kind));
                     full.insert("op".into(), op.clone());
-                    let ms = if rec["res"] == "panic" { Value::Null } else { sut.mstate() };
+                    let ms = if rec["res"] == "panic" { Value::Null } else if S::COMPARE_MSTATE { sut.mstate() } else { t["post"].clone() };
                     if ms != t["post"] {
                         st.drift += 1;
                         full.insert("drift".into(), json!(true));
